@@ -1,11 +1,23 @@
 (** C03 correspondence: Model/WriteSet.v against recorded runs of a real overlaydb.OverlayDB
     (over goleveldb's in-memory storage): GetWriteSet().ForEach output and ChangeHash, the latter
     re-computed with the Gallina SHA-256 of Lib/Sha256.v. *)
-From Coq Require Import List Bool NArith.
+From Coq Require Import List Bool NArith ZArith Uint63.
 Import ListNotations.
+From Coq Require Export PrimInt63.
 From Ont Require Export Lib.Bytes Lib.CorrLib Lib.Sha256 Model.WriteSet.
 Local Open Scope N_scope.
 Open Scope bool_scope.
+
+(** Compact byte-string literals for the generated case file (a list-of-N literal costs ~30 us per
+    character to parse and type-check; a primitive integer literal is one node): [pk lastn chunks]
+    is the concatenation of the chunks, each a little-endian packing of 7 bytes into a primitive
+    63-bit integer, except the last one which packs [lastn] (1..7) bytes. *)
+Fixpoint pk (lastn : nat) (chunks : list int) : bytes :=
+  match chunks with
+  | [] => []
+  | [x] => le_encode lastn (Z.to_N (Uint63.to_Z x))
+  | x :: r => le_encode 7 (Z.to_N (Uint63.to_Z x)) ++ pk lastn r
+  end.
 
 Definition kv_eqb (a b : kv) : bool := bytes_eqb (fst a) (fst b) && bytes_eqb (snd a) (snd b).
 Definition ws_eqb : list kv -> list kv -> bool := list_eqb kv_eqb.
@@ -40,6 +52,3 @@ Definition case_ok (c : case) : bool :=
   end.
 
 Definition mismatches := mism case_ok.
-
-(** compact byte-string literals for the generated case file *)
-Definition hx (s : String.string) : bytes := bytes_of_hex s.
